@@ -181,6 +181,9 @@ def coerce_num(a, b):
     return a, b
 
 
+TRUTHY_HOOKS = {}     # class name -> function(ObjV) -> z3 Bool (classes defining __len__ / __bool__)
+
+
 def boolify(v):
     """Python truthiness."""
     if isinstance(v, bool):
@@ -208,7 +211,12 @@ def boolify(v):
     if isinstance(v, DictIntV):
         k = z3.Int("k!de")
         return z3.Not(z3.ForAll([k], z3.Not(v.has[k])))
-    if isinstance(v, (ObjV, ClsV, FuncV, ChoiceV)):
+    if isinstance(v, ObjV):
+        for c_ in mro(v.cls):
+            if c_ in TRUTHY_HOOKS:
+                return TRUTHY_HOOKS[c_](v)
+        return z3.BoolVal(True)
+    if isinstance(v, (ClsV, FuncV, ChoiceV)):
         return z3.BoolVal(True)
     if type(v).__name__ == "CArr":
         return z3.BoolVal(True)         # non-NULL pointer (allocation failure is modelled by the raises clause)
@@ -234,6 +242,20 @@ def merge_val(c, a, b, name="m"):
             return Opt(z3.If(c, z3.BoolVal(True), b.none), b.val)
         return Opt(c, b)
     if b is None:
+        if isinstance(a, Opt):
+            return Opt(z3.If(c, a.none, z3.BoolVal(True)), a.val)
+        return Opt(z3.Not(c), a)
+    # Python `False` merged with a string (e.g. a mode that is "normal" / "combinatorial" / False): modelled as an
+    # optional string; only truthiness and comparison with strings are meaningful on such a value
+    if is_z3(a) and z3.is_false(a) and isinstance(b, (StrV, PyConst, Opt)) and not (isinstance(b, PyConst) and not isinstance(b.v, str)):
+        a = None
+    if is_z3(b) and z3.is_false(b) and isinstance(a, (StrV, PyConst, Opt)) and not (isinstance(a, PyConst) and not isinstance(a.v, str)):
+        b = None
+    if a is None and b is not None:
+        if isinstance(b, Opt):
+            return Opt(z3.If(c, z3.BoolVal(True), b.none), b.val)
+        return Opt(c, b)
+    if b is None and a is not None:
         if isinstance(a, Opt):
             return Opt(z3.If(c, a.none, z3.BoolVal(True)), a.val)
         return Opt(z3.Not(c), a)
@@ -264,16 +286,29 @@ def merge_val(c, a, b, name="m"):
     if isinstance(a, ObjV) and isinstance(b, ObjV):
         cls = a.cls if a.cls == b.cls else common_base(a.cls, b.cls)
         fields = {}
-        for k in set(a.fields) | set(b.fields):
-            if k in a.fields and k in b.fields:
-                fields[k] = merge_val(c, a.fields[k], b.fields[k], name + "." + k)
-            else:
-                fields[k] = a.fields.get(k, b.fields.get(k))
-        return ObjV(cls, fields)
+        try:
+            for k in set(a.fields) | set(b.fields):
+                if k in a.fields and k in b.fields:
+                    fields[k] = merge_val(c, a.fields[k], b.fields[k], name + "." + k)
+                else:
+                    fields[k] = a.fields.get(k, b.fields.get(k))
+            return ObjV(cls, fields)
+        except Unsupported:
+            if a.cls == b.cls:
+                raise
+            # objects of unrelated shapes: keep both alternatives (usable for storing/passing on, not for field access)
+            return ChoiceV([(c, a), (z3.Not(c), b)])
+    if isinstance(a, TupV) and isinstance(b, ListV):
+        a = ListV((z3.BoolVal(True), i) for i in a.items)
+    if isinstance(b, TupV) and isinstance(a, ListV):
+        b = ListV((z3.BoolVal(True), i) for i in b.items)
     if isinstance(a, ListV) and isinstance(b, ListV):
         if len(a.items) == len(b.items) and all(z3.is_true(g) for g, _ in a.items + b.items):
             try:
-                return ListV((z3.BoolVal(True), merge_val(c, x, y, name)) for (_, x), (_, y) in zip(a.items, b.items))
+                merged = ListV((z3.BoolVal(True), merge_val(c, x, y, name)) for (_, x), (_, y) in zip(a.items, b.items))
+                if not any(isinstance(m_, ChoiceV) and not (isinstance(x, ChoiceV) or isinstance(y, ChoiceV))
+                           for (_, m_), (_, x), (_, y) in zip(merged.items, a.items, b.items)):
+                    return merged
             except Unsupported:
                 pass        # elements of unrelated shapes: keep both lists, guarded
         out = []
@@ -309,7 +344,8 @@ def merge_val(c, a, b, name="m"):
         return type(a)(arr, a.n if a.n.eq(b.n) else z3.If(c, a.n, b.n), a.off if a.off.eq(b.off) else z3.If(c, a.off, b.off), a.name)
     if isinstance(a, FuncV) and isinstance(b, FuncV) and a.name == b.name:
         return a
-    if isinstance(a, (FuncV, ClsV, ChoiceV)) and isinstance(b, (FuncV, ClsV, ChoiceV)):
+    if isinstance(a, (FuncV, ClsV, ChoiceV, ObjV)) and isinstance(b, (FuncV, ClsV, ChoiceV, ObjV)) and \
+            (isinstance(a, ChoiceV) or isinstance(b, ChoiceV) or not (isinstance(a, ObjV) and isinstance(b, ObjV))):
         oa = a.options if isinstance(a, ChoiceV) else [(z3.BoolVal(True), a)]
         ob = b.options if isinstance(b, ChoiceV) else [(z3.BoolVal(True), b)]
         return ChoiceV([(z3.And(c, g), v) for g, v in oa] + [(z3.And(z3.Not(c), g), v) for g, v in ob])
